@@ -70,14 +70,28 @@ class Lock:
 
 # ---------------------------------------------------------------- Coq side
 def strip_comments(text):
-    out, depth, i = [], 0, 0
-    while i < len(text):
+    """Remove (* comments *) (nested) and the contents of "string literals"."""
+    out, depth, i, n = [], 0, 0, len(text)
+    while i < n:
         if text.startswith("(*", i):
             depth += 1
             i += 2
         elif text.startswith("*)", i) and depth > 0:
             depth -= 1
             i += 2
+        elif text[i] == '"':
+            # Coq string literal (also inside comments): skip to the closing quote, "" is an escaped quote
+            j = i + 1
+            while j < n:
+                if text[j] == '"':
+                    if j + 1 < n and text[j + 1] == '"':
+                        j += 2
+                        continue
+                    break
+                j += 1
+            if depth == 0:
+                out.append('""')
+            i = j + 1
         else:
             if depth == 0:
                 out.append(text[i])
